@@ -560,3 +560,234 @@ Proof.
   exists (repeat 0 93 ++ [7]). eexists. split; [reflexivity|]. split; [vm_compute; reflexivity|].
   vm_compute. discriminate.
 Qed.
+
+(* ------------------------------------------------------------------ *)
+(* fields followed by a tail                                           *)
+(* ------------------------------------------------------------------ *)
+
+Lemma has_widths_app fs ws extra : has_widths fs ws -> has_widths (fs ++ extra) ws.
+Proof. induction 1; cbn [app]; constructor; auto. Qed.
+
+Lemma has_widths_length fs ws : has_widths fs ws -> (length ws <= length fs)%nat.
+Proof. induction 1; cbn [length]; lia. Qed.
+
+Lemma concat_snoc (fs : list (list N)) r : concat (fs ++ [r]) = concat fs ++ r.
+Proof. rewrite concat_app. cbn [concat]. now rewrite app_nil_r. Qed.
+
+Lemma slice_fields_tail fs ws rest k a b :
+  has_widths fs ws -> (k < length ws)%nat ->
+  a = sumN (firstn k ws) -> b = sumN (firstn (S k) ws) ->
+  slice a b (concat fs ++ rest) = Some (nth k fs []).
+Proof.
+  intros HW Hk Ha Hb. rewrite <- concat_snoc.
+  rewrite (slice_fields (fs ++ [rest]) ws k a b (has_widths_app _ _ _ HW) Hk Ha Hb).
+  f_equal. apply app_nth1. pose proof (has_widths_length _ _ HW). lia.
+Qed.
+
+Lemma slice_shift pre m a b : a <= b -> slice (Nlen pre + a) (Nlen pre + b) (pre ++ m) = slice a b m.
+Proof.
+  intro H. rewrite slice_app_skip by lia. f_equal; lia.
+Qed.
+
+(* the 16-byte prefix and the whole of an encoded transaction inside a buffer *)
+Lemma tx_in_buffer t pre rest : wf_tx t = true ->
+  let bs := pre ++ encode_tx t ++ rest in
+  let s := Nlen pre in
+  slice s (s + 4) bs = Some (be_enc 4 (Nlen (t_from t)))
+  /\ slice (s + 4) (s + 8) bs = Some (be_enc 4 (Nlen (t_to t)))
+  /\ slice (s + 8) (s + 12) bs = Some (be_enc 4 (Nlen (t_data t)))
+  /\ slice (s + 12) (s + 16) bs = Some (be_enc 4 (Nlen (t_path t)))
+  /\ slice s (s + size_tx t) bs = Some (encode_tx t).
+Proof.
+  intros W bs s. subst bs s. pose proof (tx_has_widths t W) as HW. pose proof (tx_size t W) as HL.
+  repeat split.
+  - replace (Nlen pre) with (Nlen pre + 0) at 1 by lia. rewrite slice_shift by lia.
+    rewrite (encode_tx_wf t W). now rewrite (slice_fields_tail _ _ rest 0%nat 0 4 HW) by field_side.
+  - rewrite slice_shift by lia.
+    rewrite (encode_tx_wf t W). now rewrite (slice_fields_tail _ _ rest 1%nat 4 8 HW) by field_side.
+  - rewrite slice_shift by lia.
+    rewrite (encode_tx_wf t W). now rewrite (slice_fields_tail _ _ rest 2%nat 8 12 HW) by field_side.
+  - rewrite slice_shift by lia.
+    rewrite (encode_tx_wf t W). now rewrite (slice_fields_tail _ _ rest 3%nat 12 16 HW) by field_side.
+  - apply slice_mid; [reflexivity|]. now rewrite HL.
+Qed.
+
+(* ------------------------------------------------------------------ *)
+(* Block                                                               *)
+(* ------------------------------------------------------------------ *)
+
+Notation block_fields tl b tb :=
+  [ tl; be_enc 8 (b_id b); be_enc 8 (b_ts b); b_prev b; b_creator b; b_merkle b; b_sig b;
+    be_enc 8 (b_graveyard b); be_enc 8 (b_treasury b); be_enc 8 (b_burnfee b); be_enc 8 (b_difficulty b);
+    be_enc 8 (b_avg_total_fees b); be_enc 8 (b_avg_fee_per_byte b); be_enc 8 (b_avg_nolan_rebroadcast b);
+    be_enc 8 (b_prev_unpaid b); be_enc 8 (b_avg_total_fees b); be_enc 8 (b_avg_total_fees_new b);
+    be_enc 8 (b_avg_total_fees_atr b); be_enc 8 (b_avg_payout_routing b); be_enc 8 (b_avg_payout_mining b);
+    be_enc 8 (b_avg_payout_treasury b); be_enc 8 (b_avg_payout_graveyard b); be_enc 8 (b_avg_payout_atr b);
+    be_enc 8 (b_total_payout_routing b); be_enc 8 (b_total_payout_mining b);
+    be_enc 8 (b_total_payout_treasury b); be_enc 8 (b_total_payout_graveyard b);
+    be_enc 8 (b_total_payout_atr b); be_enc 8 (b_total_fees b); be_enc 8 (b_total_fees_new b);
+    be_enc 8 (b_total_fees_atr b); be_enc 8 (b_fee_per_byte b); be_enc 8 (b_total_fees_cumulative b);
+    tb ] (only parsing).
+
+Notation block_widths L :=
+  [ 4; 8; 8; 32; 33; 32; 64; 8; 8; 8; 8; 8; 8; 8; 8; 8; 8; 8; 8; 8; 8; 8; 8; 8; 8; 8; 8; 8; 8; 8; 8; 8; 8; L ]
+  (only parsing).
+
+Lemma block_has_widths tl b tb :
+  Nlen tl = 4 -> arr_ok 32 (b_prev b) = true -> arr_ok 33 (b_creator b) = true ->
+  arr_ok 32 (b_merkle b) = true -> arr_ok 64 (b_sig b) = true ->
+  has_widths (block_fields tl b tb) (block_widths (Nlen tb)).
+Proof.
+  intros H1 H2 H3 H4 H5.
+  repeat (constructor; [first [exact H1 | now apply arr_ok_len | apply be_enc_Nlen | reflexivity]|]).
+  constructor.
+Qed.
+
+Lemma size_txs_concat txs : forallb wf_tx txs = true ->
+  Nlen (concat (map encode_tx txs)) = fold_right (fun t a => size_tx t + a) 0 txs.
+Proof.
+  induction txs as [|t txs IH]; cbn [forallb map concat fold_right]; intro W; [reflexivity|].
+  apply andb_split in W as [Wt Wr]. rewrite Nlen_app, (tx_size t Wt), IH by assumption. reflexivity.
+Qed.
+
+Lemma size_tx_ge t : TRANSACTION_SIZE <= size_tx t.
+Proof. unfold size_tx. lia. Qed.
+
+Lemma size_txs_ge txs : 93 * Nlen txs <= fold_right (fun t a => size_tx t + a) 0 txs.
+Proof.
+  induction txs as [|t txs IH]; cbn [fold_right].
+  - unfold Nlen. cbn [length]. lia.
+  - rewrite Nlen_cons. pose proof (size_tx_ge t). unfold TRANSACTION_SIZE in *. lia.
+Qed.
+
+Lemma dec_block_txs_encode : forall txs pre post fuel,
+  forallb wf_tx txs = true -> (length txs <= fuel)%nat ->
+  dec_block_txs fuel (Nlen txs) (Nlen pre) (pre ++ concat (map encode_tx txs) ++ post) = Ok txs.
+Proof.
+  induction txs as [|t txs IH]; intros pre post fuel W Hf.
+  - destruct fuel; reflexivity.
+  - cbn [forallb] in W. apply andb_split in W as [Wt Wr]. cbn [length] in Hf.
+    destruct fuel as [|fuel]; [lia|].
+    cbn [map concat]. rewrite <- app_assoc.
+    destruct (tx_in_buffer t pre (concat (map encode_tx txs) ++ post) Wt) as (S1 & S2 & S3 & S4 & S5).
+    cbv zeta in S1, S2, S3, S4, S5.
+    set (bs := pre ++ encode_tx t ++ concat (map encode_tx txs) ++ post) in *.
+    assert (HL : Nlen bs = Nlen pre + size_tx t + Nlen (concat (map encode_tx txs) ++ post)).
+    { subst bs. rewrite !Nlen_app, (tx_size t Wt). lia. }
+    pose proof (size_tx_ge t) as Hge. unfold TRANSACTION_SIZE in Hge.
+    pose proof Wt as Wt'. unfold wf_tx in Wt'. split_and. unfold two32 in *.
+    cbn [dec_block_txs]. rewrite Nlen_cons.
+    replace (1 + Nlen txs =? 0) with false by lia.
+    replace (Nlen bs <? Nlen pre + 16) with false by lia.
+    unfold sl at 1 2 3 4. rewrite S1, S2, S3, S4. cbn [bind].
+    rewrite !be_dec_enc by (rewrite pow256_4; lia).
+    replace (two32 <=? Nlen (t_from t) + Nlen (t_to t)) with false by (unfold two32; lia).
+    replace (Nlen pre + TRANSACTION_SIZE + (Nlen (t_from t) + Nlen (t_to t)) * SLIP_SIZE + Nlen (t_data t)
+             + Nlen (t_path t) * HOP_SIZE) with (Nlen pre + size_tx t)
+      by (unfold size_tx, TRANSACTION_SIZE, SLIP_SIZE, HOP_SIZE; lia).
+    replace (Nlen bs <? Nlen pre + size_tx t) with false by lia.
+    unfold sl. rewrite S5. cbn [bind]. rewrite (tx_decode_encode t Wt). cbn [bind].
+    replace (1 + Nlen txs - 1) with (Nlen txs) by lia.
+    replace (Nlen pre + size_tx t) with (Nlen (pre ++ encode_tx t)) by (rewrite Nlen_app, (tx_size t Wt); reflexivity).
+    subst bs.
+    replace (pre ++ encode_tx t ++ concat (map encode_tx txs) ++ post)
+      with ((pre ++ encode_tx t) ++ concat (map encode_tx txs) ++ post) by now rewrite <- app_assoc.
+    rewrite IH by (assumption || lia). reflexivity.
+Qed.
+
+Lemma dec_block_txs_zero fuel start bs : dec_block_txs fuel 0 start bs = Ok [].
+Proof. destruct fuel; reflexivity. Qed.
+
+Lemma encode_block_eq bt b :
+  encode_block bt b =
+  concat (block_fields (if bt =? BT_HEADER then be_enc 4 0 else be_enc 4 (Nlen (b_txs b))) b
+                       (if negb (bt =? BT_HEADER) then concat (map encode_tx (b_txs b)) else [])).
+Proof. reflexivity. Qed.
+
+Ltac fields_from k n :=
+  match n with
+  | O => idtac
+  | S ?n' => field k; fields_from (S k) n'
+  end.
+
+Lemma block_decode_fields tl b tb :
+  Nlen tl = 4 -> wf_block b = true ->
+  decode_block (concat (block_fields tl b tb)) =
+  do txs <- dec_block_txs (length (concat (block_fields tl b tb))) (be_dec tl) BLOCK_HEADER_SIZE
+              (concat (block_fields tl b tb));
+  Ok (mkBlock (b_id b) (b_ts b) (b_prev b) (b_creator b) (b_merkle b) (b_sig b)
+        (b_graveyard b) (b_treasury b) (b_burnfee b) (b_difficulty b)
+        (b_avg_total_fees b) (b_avg_fee_per_byte b) (b_avg_nolan_rebroadcast b) (b_prev_unpaid b)
+        (b_avg_total_fees_new b) (b_avg_total_fees_atr b)
+        (b_avg_payout_routing b) (b_avg_payout_mining b) (b_avg_payout_treasury b)
+        (b_avg_payout_graveyard b) (b_avg_payout_atr b)
+        (b_total_payout_routing b) (b_total_payout_mining b) (b_total_payout_treasury b)
+        (b_total_payout_graveyard b) (b_total_payout_atr b)
+        (b_total_fees b) (b_total_fees_new b) (b_total_fees_atr b)
+        (b_fee_per_byte b) (b_total_fees_cumulative b)
+        txs
+        (if (be_dec tl =? 0) && negb ((b_id b =? 1) && beq (b_prev b) zero_hash) then BT_HEADER else BT_FULL)).
+Proof.
+  intros Htl W. unfold wf_block in W. split_and.
+  match goal with H : forallb _ (block_nums b) = true |- _ =>
+    cbn [forallb block_nums] in H; rename H into Hn end.
+  split_and. unfold two64 in *.
+  pose proof (block_has_widths tl b tb Htl ltac:(assumption) ltac:(assumption) ltac:(assumption) ltac:(assumption)) as HW.
+  assert (HL : Nlen (concat (block_fields tl b tb)) = 389 + Nlen tb).
+  { rewrite (has_widths_total _ _ HW) by reflexivity. cbn [sumN]. lia. }
+  unfold decode_block. rewrite HL.
+  replace (389 + Nlen tb <? BLOCK_HEADER_SIZE) with false by (unfold BLOCK_HEADER_SIZE; lia).
+  fields_from 0%nat 33%nat.
+  rewrite !be_dec_enc by (rewrite pow256_8; lia).
+  reflexivity.
+Qed.
+
+Lemma block_decode_encode bt b :
+  wf_block b = true -> decode_block (encode_block bt b) = Ok (block_after_wire bt b).
+Proof.
+  intro W. rewrite encode_block_eq. pose proof W as W'. unfold wf_block in W'. split_and. unfold two32 in *.
+  destruct (bt =? BT_HEADER) eqn:Ebt; cbn [negb].
+  - rewrite block_decode_fields by (assumption || apply be_enc_Nlen).
+    rewrite be_dec_enc by (rewrite pow256_4; lia). rewrite dec_block_txs_zero. cbn [bind].
+    unfold block_after_wire. rewrite Ebt. reflexivity.
+  - rewrite block_decode_fields by (assumption || apply be_enc_Nlen).
+    rewrite be_dec_enc by (rewrite pow256_4; lia).
+    set (tl := be_enc 4 (Nlen (b_txs b))). set (tb := concat (map encode_tx (b_txs b))).
+    assert (HW : has_widths (block_fields tl b tb) (block_widths (Nlen tb))).
+    { apply block_has_widths; try assumption. subst tl. apply be_enc_Nlen. }
+    destruct (fields_view _ _ HW 33%nat ltac:(cbn [length]; lia)) as (E1 & E2 & _).
+    cbn [nth skipn concat] in E1. cbn [firstn sumN] in E2.
+    set (pre := concat (firstn 33 (block_fields tl b tb))) in *.
+    assert (HL : Nlen (concat (block_fields tl b tb)) = 389 + Nlen tb).
+    { rewrite (has_widths_total _ _ HW) by reflexivity. cbn [sumN]. lia. }
+    assert (Hfuel : (length (b_txs b) <= length (concat (block_fields tl b tb)))%nat).
+    { subst tb. rewrite (size_txs_concat (b_txs b)) in HL by assumption.
+      pose proof (size_txs_ge (b_txs b)). unfold Nlen in *. lia. }
+    rewrite E1 at 2. subst tb.
+    replace BLOCK_HEADER_SIZE with (Nlen pre) by (rewrite E2; reflexivity).
+    rewrite (dec_block_txs_encode (b_txs b) pre []) by assumption.
+    cbn [bind]. unfold block_after_wire. rewrite Ebt. reflexivity.
+Qed.
+
+Lemma block_size bt b : wf_block b = true -> Nlen (encode_block bt b) = size_block bt b.
+Proof.
+  intro W. rewrite encode_block_eq. pose proof W as W'. unfold wf_block in W'. split_and.
+  unfold size_block, BLOCK_HEADER_SIZE.
+  destruct (bt =? BT_HEADER) eqn:Ebt; cbn [negb].
+  - rewrite (has_widths_total _ _ (block_has_widths _ b [] (be_enc_Nlen 4 0) ltac:(assumption)
+       ltac:(assumption) ltac:(assumption) ltac:(assumption))) by reflexivity.
+    cbn [sumN]. rewrite Nlen_nil. lia.
+  - rewrite (has_widths_total _ _ (block_has_widths _ b _ (be_enc_Nlen 4 _) ltac:(assumption)
+       ltac:(assumption) ltac:(assumption) ltac:(assumption))) by reflexivity.
+    cbn [sumN]. rewrite size_txs_concat by assumption. lia.
+Qed.
+
+(* canonical re-encoding fails for blocks: avg_total_fees is written twice
+   (offsets 213 and 245) and only the second copy is read; trailing bytes after
+   the declared transactions are ignored *)
+Lemma block_canonical_refuted :
+  exists bs b, bytes_ok bs = true /\ decode_block bs = Ok b /\ encode_block BT_FULL b <> bs.
+Proof.
+  exists (repeat 0 220 ++ [1] ++ repeat 0 168). eexists.
+  split; [reflexivity|]. split; [vm_compute; reflexivity|]. vm_compute. discriminate.
+Qed.
